@@ -1,6 +1,7 @@
 //! The peer of the OCaml driver: starts it, sends cases, answers every oracle query of the
 //! extracted model with the REAL primitive of the library, and collects the model's result.
 use crate::util::*;
+use crate::sig::panic_msg;
 use charset_normalizer_rs::entity::{Language, NormalizerSettings};
 use charset_normalizer_rs::utils::decode;
 use charset_normalizer_rs::verif_hooks as hooks;
@@ -256,7 +257,21 @@ impl Driver {
             }
             let l = l.trim_end_matches('\n');
             if let Some(q) = l.strip_prefix("Q ") {
-                let a = self.answer(q);
+                // a primitive of the library that panics while serving the model is a finding (C02), not a reason to die
+                let a = match std::panic::catch_unwind(std::panic::AssertUnwindSafe(|| self.answer(q))) {
+                    Ok(a) => a,
+                    Err(p) => {
+                        self.contract_violations.push(format!("NoPanic: the library primitive behind query `{}` panicked: {}",
+                            q.chars().take(160).collect::<String>(), panic_msg(p)));
+                        let kind = q.split(' ').next().unwrap_or("");
+                        match kind {
+                            "TEST" | "MESS" | "FLAGS" | "ISALPHA" => "0".to_string(),
+                            "RACC" => q.split(' ').nth(1).unwrap_or("0").to_string(),
+                            "MERGE" | "SBL" | "LAYERS" | "ALPH" | "LOWER" => "-".to_string(),
+                            _ => "ERR".to_string(),
+                        }
+                    }
+                };
                 self.send(&a);
                 let _ = self.stdin.flush();
             } else if l == "END" {
